@@ -387,6 +387,7 @@ func (s *Sched) reschedule(t *Thread, exiting bool) {
 		}
 		if alive {
 			s.Outcome = "deadlock"
+			s.finalRaces()
 		}
 		s.kill()
 		if exiting {
